@@ -10,8 +10,9 @@
 (*   TrimLead   - exactly one leading SP dropped                             *)
 (*   TrimTrail  - exactly one trailing SP / HT dropped, if anything is left  *)
 (*   verdict    - the library's decision under default settings on the rest  *)
-(*   echo       - the rest, with control characters written as 0x%02x;       *)
-(*                not pinned when the rest is not well-formed UTF-8          *)
+(*   echo       - the rest, unchanged, when it is well-formed UTF-8 without   *)
+(*                control characters; not pinned otherwise (the tool writes  *)
+(*                control characters as 0x%02x: EchoOf, kept as model only)  *)
 (***************************************************************************)
 EXTENDS Bytes, Utf8
 
@@ -40,5 +41,7 @@ Commented(raw) == IsComment(CStr(StripTerm(raw)))
 HexDigit(v) == IF v < 10 THEN 48 + v ELSE 87 + v
 Escape(b) == <<48, 120, HexDigit(b \div 16), HexDigit(b % 16)>>
 EchoOf(a) == Concat([i \in 1..Len(a) |-> IF IsCtl(a[i]) THEN Escape(a[i]) ELSE <<a[i]>>])
-EchoPinned(a) == WellFormed(a)
+\* the property pins the echo only for well-formed lines without control characters (echoed unchanged); how control
+\* characters or undecodable bytes are shown is the tool's business
+EchoPinned(a) == WellFormed(a) /\ \A i \in 1..Len(a) : ~IsCtl(a[i])
 =============================================================================
